@@ -23,6 +23,16 @@ pub fn boundary_lengths() -> Vec<u32> {
     v
 }
 
+/// Second boundary set (used by the runs added later): fragment counts around multiples of 64,
+/// where per-fragment bitfields change words.
+pub fn word_boundary_lengths() -> Vec<u32> {
+    let mut v = Vec::new();
+    for k in [64u32, 128, 192, 256] {
+        v.extend_from_slice(&[(k - 1) * FRAG as u32, (k - 1) * FRAG as u32 + 1, k * FRAG as u32 - 7, k * FRAG as u32, k * FRAG as u32 + 1]);
+    }
+    v
+}
+
 pub struct ASetup {
     pub win_frame: [u32; 2],
     pub win_packet: [u32; 2],
